@@ -4,16 +4,19 @@
    make the acceptor meaningful (exactly one start per incarnation, a
    terminated unit never runs again). *)
 EXTENDS H_Exec
-Args == {1, 2}
+CONSTANTS Args, MigUnits
 HNext ==
     \E u \in Units :
-       \/ \E a \in Args : Create(0, u, a) \/ Revive(0, u, a)
+       \/ \E a \in Args, p \in {0, 1} : Create(0, u, a, p, TRUE) \/ Revive(0, u, a, p)
        \/ \E a \in Args : Start(u, a, 1)
-       \/ Finish(u) \/ Yield(u) \/ Back(u) \/ Suspend(u) \/ Resume(0, u) \/ Resumed(u)
+       \/ Finish(u) \/ Yield(u) \/ (\E p \in {NoPool, 0, 1} : Back(u, p)) \/ Suspend(u) \/ Resume(0, u) \/ Resumed(u)
        \/ Cancel(0, u) \/ CancelRet(0, u) \/ Honour(u)
        \/ FreeRet(0, u, 1, tok[u])
+       \/ (u \in MigUnits /\ ((\E t \in {AnyPool, 0, 1} : MigReq(0, u, t)) \/ (\E r \in 0..2 : MigRet(0, u, r)) \/ (mg[u].ncb < 2 /\ MigCb(u))))
 HSpec == HInit /\ [][HNext]_hvars
 OneStart == \A u \in Units : starts[u] <= 1
 DoneHasNoCancelPending == \A u \in Units : cst[u] = 3 => st[u] \in {"done", "freed", "created", "running", "blocked", "resumable"}
+\* a unit that had to move never reports back from its old pool
+Moved == \A u \in Units : mg[u].must => mg[u].armed
 FreedIsFinal == [][\A u \in Units : st[u] = "freed" => st'[u] = "freed"]_hvars
 =============================================================================
